@@ -4,9 +4,10 @@ import random
 from vlib import common as C
 from vlib.framework import Corr
 from harness import layoutlib as L
+from harness import translib as T
 
 META = {
-    "drivers": ["driver"],
+    "drivers": ["driver", "impcheck"],
     "rule": "case = (op, layout, extents, coordinate, build config); non-trivial when the flat position is not 0 and the box has >= 2 cells; "
             "hilbert squares: one case per (k, config) covering all 4^k cells",
     "trusted_base": ["_pdep_u64 (hardware) behaves as the model's bit-scan pdep"],
@@ -203,8 +204,43 @@ def evaluate(ctx, cases, cfgs):
     return corr
 
 
+KERNEL_LAYS = {"strided_index": ("strided",), "morton_index": ("mortonT", "mortonF"), "morton_index_bmi2_off": ("mortonF",),
+               "hilbert_index": ("hilbert",)}
+CT_OF_WIDTH = {64: "u64", 32: "u32", 16: "u16"}
+
+
+def tie_cases(ctx, tie, gen_deep):
+    """additional cases for the kernels whose source text is no longer the term the theorems are about: the thorough tier's
+    inputs for their layouts, and every input on which the Lean interpreter sees the changed text differ from the reference"""
+    out = []
+    if not tie.changed():
+        return out
+    lays = {l for k in tie.changed() for l in KERNEL_LAYS[k]}
+    out += [c for c in gen_deep() if c[1] in lays]
+    for k in tie.changed():
+        for (w, sc, ar), new, ref in tie.counterexamples(k):
+            if k == "strided_index":
+                out.append(("idx", "strided", ar["m_sizes"], ar["c"], CT_OF_WIDTH[w]))
+            elif k == "hilbert_index":
+                out.append(("static", "hilbert", ar["sizes"], ar["c"]))
+            else:
+                N = len(ar["c"])
+                big = [1 << (64 // N)] * N if N > 1 else [2 ** 64 - 1]
+                for lay in KERNEL_LAYS[k]:
+                    out.append(("static", lay, big, ar["c"]))
+    return out
+
+
 def run(ctx):
-    return evaluate(ctx, gen(ctx), ["dbg", "bmi2", "relbmi2", "clang"] if ctx.quick else ["dbg", "bmi2", "rel", "relbmi2", "clang"])
+    cases = gen(ctx)
+    tie = T.Tie(ctx, list(KERNEL_LAYS))
+
+    class Deep:
+        quick, seed = False, ctx.seed
+    cases += tie_cases(ctx, tie, lambda: gen(Deep))
+    corr = evaluate(ctx, cases, ["dbg", "bmi2", "relbmi2", "clang"] if ctx.quick else ["dbg", "bmi2", "rel", "relbmi2", "clang"])
+    tie.merge(corr)
+    return corr
 
 
 def replay(ctx):
